@@ -35,5 +35,13 @@ def run(ctx):
             jobs.append((cfg, gen(), 'random', n, ctx['seed'], ()))
             jobs.append((cfg, gen(), 'pct', n, ctx['seed'], ('--depth', '3')))
             jobs.append((dict(cfg, aba='1'), gen(), 'random', n, ctx['seed'] + 1, ()))
+        # completeness across buckets: the element the iterator stands on is erased (it is the last of its bucket), later buckets hold
+        # elements that stay for the whole traversal and must still be yielded
+        for cfg in ({'c': 'map', 'buckets': '8', 'memo': '0'}, {'c': 'map', 'buckets': '2', 'memo': '1', 'hash': 'mod2'}, {'c': 'set'}):
+            trav = ['ins 10', 'ins 20', 'ins 30', 'ins 41', 'itb', 'itn', 'itn', 'itn', 'itn', 'itn']
+            for upd in (['del 10'], ['del 20'], ['del 41', 'del 10'], ['del 30']):
+                jobs.append((cfg, [trav, upd], 'prefix', 80, ctx['seed'], ()))
+            jobs.append((cfg, [['ins 10', 'ins 20', 'ins 30', 'ins 41', 'trav'], ['del 20'], ['del 10']], 'dfs', n, ctx['seed'], ('--pb', '2')))
+            jobs.append((cfg, [['ins 10', 'ins 20', 'ins 30', 'itb', 'del 10', 'itn', 'itn', 'itn']], 'opseq', 1, ctx['seed'], ()))
         do_search(ctx, H, jobs, name, classify=lambda c, h, f, name=name: {'harness': name})
     return None
